@@ -37,6 +37,12 @@ NATIVE = [
     dict(name="s3file_header_enum", source="native/s3file_header_enum.c", repo_sources="ALL_EXCEPT:s3file.c,ckd_alloc.c", cflags=["-w", "-fsanitize=address"],
          args={"quick": [], "thorough": ["thorough"]}, exhaustive=True,
          bound="EVERY file of <= 5 bytes (thorough 6) over a 15-letter alphabet through the real s3file_parse_header, exact-size heap blocks under AddressSanitizer, exit() trapped"),
+    dict(name="loader_fault_enum", source="native/loader_fault_enum.c", repo_sources="ALL_EXCEPT:", cflags=["-w", "-fsanitize=address", "-Dexit=ssw_exit"],
+         args={"quick": [], "thorough": ["thorough"]}, exhaustive=False, timeout=3000,
+         bound="fault enumeration over the bundled en-us and fr-fr model files (transition_matrices, means, variances, sendump, mdef, feat_params.json): truncation lengths "
+               "(every length for transition_matrices and for header regions, a stride through the data: quick ~16 000 trials, thorough ~10x), every header byte x 4 values, "
+               "every count word x 11 values; in memory through the real *_init_s3file loaders (exact-size heap blocks, AddressSanitizer) and from disk through decoder_init "
+               "(memory mapped) followed by loading the intact model in the same process; exit(), signals and hangs trapped per forked trial"),
 ]
 ASSUMPTIONS = [
     "file view: a buffer of verif_flen <= 1 000 000 bytes; element size is a compile-time constant per run (4 in the quick tier)",
@@ -47,8 +53,14 @@ ASSUMPTIONS = [
     "s3file_get_1d's contract is used by the get_2d/get_3d contract groups but its own DFCC proof did not finish (tier 'probe'); it is covered by the bounded whole-file group instead",
 ]
 HAND_LEMMAS = []
-NOT_COVERED = ["the loaders above the s3file layer: bin_mdef_read_s3file, tmat_init_s3file, gauden/senone/ptm/s2_semi loaders, lda_read, acmod_load_am (seeded changes C17_A and C17_B live there); sub-agents reported further baseline defects there (tmat double free on bad checksum, sendump truncation freeing a pointer into the file buffer, NULL ciname in bin_mdef_free, unchecked tmat_init result) that are NOT decided by any check here", "mmap path", "the 'intact model loads afterwards' clause"]
+NOT_COVERED = ["the loaders above the s3file layer (bin_mdef_read_s3file, tmat_init_s3file, gauden_param_read, read_sendump, ptm/s2_semi/ms_mgau init, acmod_load_am) are NOT under contract: "
+               "floating point, megabyte tables and dozens of allocation sites; they are decided only by the bounded native fault enumeration loader_fault_enum (sampled truncation lengths, "
+               "single byte / single word damage) -- labelled bounded, never counted as proved",
+               "senone_init / mixture_weights / senmgau / feature_transform (lda) loaders: no such file in the bundled models, exercised only through the 'file missing' path",
+               "text mdef reader (mdef.c): ~40 E_FATAL sites remain for damaged TEXT model definitions (not a bundled file format; only the three exits taken for binary / missing / empty files were repaired)",
+               "damaged values in feat_params.json reach E_FATAL in cmn.c / feat.c / fe_sigproc.c: recorded known findings",
+               "multi-field damage (two counts changed consistently), damage inside the floating-point payload beyond what the checksum catches"]
 CLAIM = dict(
-    text="The s3file layer every model loader reads through is under contract: s3file_nextline/nextword (loop invariants, termination) and s3file_get (with byte-swap loops) never read outside the file for files of any length up to 1 MB; s3file_get_2d/_3d/verify_chksum are proved against the callee contracts to report failure through the return value, never reaching exit(), never allocating more than the file could fill and never building row pointers outside the data block. The whole chain (real get/get_1d/get_2d/get_3d, byte-level copies) is additionally checked on every file of <= 12..20 symbolic bytes (bounded) and the header parser on every file of <= 5 bytes over a 15-letter alphabet by native enumeration under ASan, which found two further genuine defects. The loaders above this layer are NOT covered.",
-    note="s3file layer only; loaders (mdef, tmat, gauden, senone, sendump, lda) not under contract; get_1d by bounded check only; three genuine defects fixed; trusted: CBMC 6.11",
-    technique="CBMC function + loop contracts (goto-instrument --dfcc) with pointer-offset invariants; bounded whole-file CBMC runs with unwinding assertions as stand-in for get_1d/parse_header; counterexamples replayed natively")
+    text="The s3file layer every model loader reads through is under contract: s3file_nextline/nextword (loop invariants, termination) and s3file_get (with byte-swap loops) never read outside the file for files of any length up to 1 MB; s3file_get_2d/_3d/verify_chksum are proved against the callee contracts to report failure through the return value, never reaching exit(), never allocating more than the file could fill and never building row pointers outside the data block. The whole chain (real get/get_1d/get_2d/get_3d, byte-level copies) is additionally checked on every file of <= 12..20 symbolic bytes (bounded) and the header parser on every file of <= 5 bytes over a 15-letter alphabet by native enumeration under ASan, which found two further genuine defects. The loaders above this layer are NOT covered. Above that layer the loaders themselves (tmat, means/variances, sendump through ptm/s2_semi, binary mdef, and decoder_init from memory-mapped files with the intact model loaded afterwards in the same process) are NOT under contract; they are decided by a bounded native fault enumeration over the two bundled models (about 17 000 damaged files per quick run: truncations, header bytes, count words; each in a forked child under AddressSanitizer with exit() trapped), which found and now guards five further defects that were repaired.",
+    note="contracts on the s3file layer only; loaders (mdef, tmat, gauden, sendump, mgau init, acmod_load_am) decided by a bounded native fault enumeration under ASan (not proof); get_1d by bounded check only; eight genuine defects fixed (3 in s3file, 5 in the loaders), 3 known findings (feat_params.json values reaching E_FATAL); trusted: CBMC 6.11, ASan",
+    technique="CBMC function + loop contracts (goto-instrument --dfcc) with pointer-offset invariants on the s3file layer; bounded whole-file CBMC runs with unwinding assertions as stand-in for get_1d/parse_header; bounded native fault enumeration under ASan as stand-in for the loaders; counterexamples replayed natively")
